@@ -60,6 +60,8 @@ class Obj:
 MISSING = object()
 # id(FunctionDef) -> (module tree, enclosing FunctionDef or None, the node itself); filled by sa.model when it parses the package
 FN_HOME = {}
+# id(module tree) -> (module name, is_package, all trees of the model): lets a fold follow `from .x import NAME` to a module-level constant
+TREE_INFO = {}
 
 
 class Raises:
@@ -542,6 +544,43 @@ class Interp:
                         except (Unsupported, Raised):
                             return MISSING
                     return cache[ck]
+        v = self.imported_constant(tree, name, 0)
+        if v is not MISSING:
+            return v
+        return MISSING
+
+    def imported_constant(self, tree, name, depth):
+        "a name the module imports from a sibling module of the package where it is a module-level `NAME = <simple expr>` (EMPTY_SET, NOARG, ...)"
+        info = TREE_INFO.get(id(tree))
+        if info is None or depth > 3:
+            return MISSING
+        modname, is_pkg, trees = info
+        for st in tree.body:
+            if not isinstance(st, ast.ImportFrom):
+                continue
+            for a in st.names:
+                if (a.asname or a.name) != name:
+                    continue
+                base = modname.split('.') if is_pkg else modname.split('.')[:-1]
+                if st.level:
+                    base = base[:len(base) - (st.level - 1)]
+                    target = '.'.join(base + ([st.module] if st.module else []))
+                else:
+                    target = st.module or ''
+                src = trees.get(target)
+                if src is None:
+                    return MISSING
+                for st2 in src.body:
+                    if isinstance(st2, ast.Assign) and len(st2.targets) == 1 and isinstance(st2.targets[0], ast.Name) and st2.targets[0].id == a.name:
+                        ck = (id(st2), a.name)
+                        cache = self.__dict__.setdefault('_home_cache', {})
+                        if ck not in cache:
+                            try:
+                                cache[ck] = self.ev(st2.value, {})
+                            except (Unsupported, Raised):
+                                return MISSING
+                        return cache[ck]
+                return self.imported_constant(src, a.name, depth + 1)
         return MISSING
 
     def _comp(self, gens, i, env, emit):
@@ -657,7 +696,7 @@ class Interp:
                     return l / r
                 if isinstance(e.op, ast.FloorDiv):
                     return l // r
-                if isinstance(e.op, ast.Mod) and not isinstance(l, str):
+                if isinstance(e.op, ast.Mod):
                     return l % r
                 if isinstance(e.op, ast.BitXor):
                     return l ^ r
@@ -710,7 +749,8 @@ class Interp:
         if isinstance(e, (ast.GeneratorExp, ast.ListComp, ast.SetComp)):
             out = []
             self._comp(e.generators, 0, dict(env), lambda env2: out.append(self.ev(e.elt, env2)))
-            return set(out) if isinstance(e, ast.SetComp) else (out if isinstance(e, ast.ListComp) else tuple(out))
+            # a generator expression is a one-pass iterator, as at run time (next(gen, default), exhaustion)
+            return set(out) if isinstance(e, ast.SetComp) else (out if isinstance(e, ast.ListComp) else iter(out))
         if isinstance(e, ast.DictComp):
             out = {}
             self._comp(e.generators, 0, dict(env), lambda env2: out.__setitem__(self.ev(e.key, env2), self.ev(e.value, env2)))
